@@ -2,6 +2,7 @@ package actionlint
 
 import (
 	"fmt"
+	"sort"
 	"strings"
 )
 
@@ -89,12 +90,17 @@ func (rule *RuleWorkflowCall) checkWorkflowCallUsesLocal(call *WorkflowCall) {
 	}
 
 	// Validate inputs
+	required := []string{}
 	for n, i := range m.Inputs {
 		if i != nil && i.Required {
 			if _, ok := call.Inputs[n]; !ok {
-				rule.Errorf(u.Pos, "input %q is required by %q reusable workflow", i.Name, u.Value)
+				required = append(required, i.Name)
 			}
 		}
+	}
+	sort.Strings(required) // Report errors in deterministic order
+	for _, n := range required {
+		rule.Errorf(u.Pos, "input %q is required by %q reusable workflow", n, u.Value)
 	}
 	for n, i := range call.Inputs {
 		if _, ok := m.Inputs[n]; !ok {
@@ -116,12 +122,17 @@ func (rule *RuleWorkflowCall) checkWorkflowCallUsesLocal(call *WorkflowCall) {
 
 	// Validate secrets
 	if !call.InheritSecrets {
+		required := []string{}
 		for n, s := range m.Secrets {
 			if s.Required {
 				if _, ok := call.Secrets[n]; !ok {
-					rule.Errorf(u.Pos, "secret %q is required by %q reusable workflow", s.Name, u.Value)
+					required = append(required, s.Name)
 				}
 			}
+		}
+		sort.Strings(required) // Report errors in deterministic order
+		for _, n := range required {
+			rule.Errorf(u.Pos, "secret %q is required by %q reusable workflow", n, u.Value)
 		}
 		for n, s := range call.Secrets {
 			if _, ok := m.Secrets[n]; !ok {
